@@ -9,6 +9,7 @@ import (
 	"fmt"
 	"math/big"
 	"os"
+	"sort"
 	"strconv"
 	"strings"
 	"time"
@@ -18,6 +19,7 @@ import (
 	"verif/internal/hx"
 	"verif/internal/ossl"
 	"verif/keys"
+	"verif/ref/der"
 	"verif/ref/refauth"
 	"verif/ref/refp7"
 	"verif/ref/refpe"
@@ -207,6 +209,33 @@ func c16Run(c *hx.Ctx, tier, unit string) {
 			}
 			c16Fixture(c, a.CertData, f+" CertData")
 		}
+		// signatures as Authenticode signers (signtool, osslsigncode) lay them out: further signed
+		// attributes (SpcSpOpusInfo, SpcStatementType, others) that are shorter / longer than the
+		// standard three, in DER SET OF order, signed by the right key. Built by hand on the library's
+		// own blob with the reference encoder.
+		for _, extra := range [][]*der.Node{
+			{der.Cons(0x30, der.Prim(0x06, der.OID(1, 3, 6, 1, 4, 1, 311, 2, 1, 12)), der.Cons(0x31, der.Cons(0x30)))},
+			{der.Cons(0x30, der.Prim(0x06, der.OID(1, 3, 6, 1, 4, 1, 311, 2, 1, 12)), der.Cons(0x31, der.Cons(0x30))),
+				der.Cons(0x30, der.Prim(0x06, der.OID(1, 3, 6, 1, 4, 1, 311, 2, 1, 11)), der.Cons(0x31, der.Cons(0x30, der.Prim(0x06, der.OID(1, 3, 6, 1, 4, 1, 311, 2, 1, 21)))))},
+			{der.Cons(0x30, der.Prim(0x06, der.OID(1, 2)), der.Cons(0x31, der.Prim(0x05, nil)))},
+			{der.Cons(0x30, der.Prim(0x06, der.OID(1, 2, 840, 113549, 1, 9, 16, 2, 47)), der.Cons(0x31, der.Prim(0x04, fill(200, 3))))},
+		} {
+			for _, seed := range p7LibSeeds() {
+				if seed.Name != "lib-authenticode-k1" && seed.Name != "lib-detached-data-k1" {
+					continue
+				}
+				t, err := p7Open(seed.Blob)
+				if err != nil || t.attrs == nil {
+					continue
+				}
+				t.attrs.Children = append(t.attrs.Children, extra...)
+				sort.Slice(t.attrs.Children, func(i, j int) bool {
+					return bytes.Compare(t.attrs.Children[i].Encode(), t.attrs.Children[j].Encode()) < 0
+				})
+				t.si.Children[t.sigIdx].Val = signAttrs(seed.Key, t.attrs)
+				c16Judge(c, t.root.Encode(), seed.Signer, fmt.Sprintf("%s with %d further signed attributes in DER order", seed.Name, len(extra)), "hand-built (Authenticode-signer style)")
+			}
+		}
 	case "openssl":
 		if !ossl.Available() {
 			c.Note("openssl not installed")
@@ -230,7 +259,23 @@ func c16Run(c *hx.Ctx, tier, unit string) {
 			contents = []int{0, 64}
 		}
 		extras := [][]string{nil}
+		// messages co-signed by a second signer (another RSA key, an ECDSA key), named before and
+		// after the signer under test: the other SignerInfo must not disturb verification
+		ecKey, ecCert := keys.ECSigner()
+		ecK, ecC := sess.Write("eck.pem", ecKey), sess.Write("ecc.pem", ecCert)
+		k2K, k2C := sess.WriteKey("k3.pem", keys.K(3)), sess.WriteCert("c3.pem", keys.C(3)) // not key 2: C(2) is the judge's "another certificate"
+		cosign := [][]string{{"-signer", ecC, "-inkey", ecK}, {"-signer", k2C, "-inkey", k2K}, {"FIRST", "-signer", ecC, "-inkey", ecK}, {"FIRST", "-signer", k2C, "-inkey", k2K}}
+		extras = append(extras, cosign...)
 		if tool == "cms" {
+			// content-type OIDs long enough to sort behind every other signed attribute
+			longOID := func(n int) string {
+				s := "1.3.6.1.4.1.99999"
+				for i := 0; len(s) < 2*n; i++ {
+					s += "." + strconv.Itoa(1+i%9)
+				}
+				return s
+			}
+			extras = append(extras, []string{"-econtent_type", longOID(52)}, []string{"-econtent_type", longOID(60)}, []string{"-econtent_type", longOID(110)})
 			extras = append(extras, []string{"-cades"},
 				// a content type whose OID is long enough to change the DER order of the signed attributes
 				[]string{"-econtent_type", "1.3.6.1.4.1.99999.1.2.3.4.5.6.7"}, []string{"-econtent_type", "1.2.3"})
